@@ -429,6 +429,12 @@ func Note(ev string) { S.cur.Log = append(S.cur.Log, ev) }
 // CurSig returns the happens-before signature of the current state (callable by the running thread).
 func CurSig() uint64 { return S.Sig() }
 
+// CurThreadSig returns the history hash of the running thread alone: what this thread did and was answered so
+// far, independent of how far other threads have got. (CurSig, the state key, also covers the other threads - a
+// table keyed by it splits one logical state of the calling thread into as many keys as there are positions of
+// threads that are still winding down.)
+func CurThreadSig() uint64 { return S.cur.hash }
+
 // Cur returns the running thread.
 func Cur() *Thread { return S.cur }
 
